@@ -23,6 +23,11 @@ type c09RLWECtx struct {
 	swkLow *rlwe.EvaluationKey
 	// evkLow: the Galois keys of evk generated one level below the maximum
 	evkLow *rlwe.MemEvaluationKeySet
+	// the ring of half the degree over the same moduli, a key from its secret to sk, and values encrypted there
+	// (one per level): re-encryption into the larger ring
+	small     *rlwe.Parameters
+	swkUp     *rlwe.EvaluationKey
+	smallVals []*rlwe.Ciphertext
 }
 
 func c09RLWE(ctx *core.RunCtx) *c09Scheme {
@@ -58,7 +63,17 @@ func c09RLWE(ctx *core.RunCtx) *c09Scheme {
 			lowQ, lowP := p.MaxLevelQ()-1, p.MaxLevelP()
 			low := kgen.GenEvaluationKeyNew(sk, sk2, rlwe.EvaluationKeyParameters{LevelQ: &lowQ, LevelP: &lowP})
 			evkLow := rlwe.NewMemEvaluationKeySet(nil, kgen.GenGaloisKeysNew(uniq, sk, rlwe.EvaluationKeyParameters{LevelQ: &lowQ, LevelP: &lowP})...)
-			return &c09RLWECtx{params: p, sk: sk, evk: evk, swk: kgen.GenEvaluationKeyNew(sk, sk2), swkLow: low, evkLow: evkLow}
+			x := &c09RLWECtx{params: p, sk: sk, evk: evk, swk: kgen.GenEvaluationKeyNew(sk, sk2), swkLow: low, evkLow: evkLow}
+			if ps, err := rlwe.NewParametersFromLiteral(rlwe.ParametersLiteral{LogN: p.LogN() - 1, Q: p.Q(), P: p.P(), RingType: p.RingType(), NTTFlag: p.NTTFlag()}); err == nil {
+				skS := rlwe.NewKeyGenerator(ps).GenSecretKeyNew()
+				x.small = &ps
+				x.swkUp = kgen.GenEvaluationKeyNew(skS, sk)
+				encS := rlwe.NewEncryptor(ps, skS)
+				for l := 0; l <= ps.MaxLevelQ(); l++ {
+					x.smallVals = append(x.smallVals, encS.EncryptZeroNew(l))
+				}
+			}
+			return x
 		})
 		if x, ok := c.(*c09RLWECtx); ok {
 			cc = x
@@ -108,6 +123,19 @@ func c09RLWE(ctx *core.RunCtx) *c09Scheme {
 		}},
 		{name: "ApplyEvaluationKey(key of lower level)", op1: []int{vNone}, needDeg1: true, deg: degOne, call: func(e any, a *rlwe.Ciphertext, b any, k int, o *rlwe.Ciphertext) error {
 			return ev(e).ApplyEvaluationKey(a, cc.swkLow, o)
+		}},
+		{name: "ApplyEvaluationKey(from the ring of half the degree)", op1: []int{vNone}, needDeg1: true, deg: degOne, call: func(e any, a *rlwe.Ciphertext, b any, k int, o *rlwe.Ciphertext) error {
+			// the value comes from the smaller ring (at the level of the operand, which is not read otherwise)
+			if cc.small == nil || o == a {
+				return fmt.Errorf("no smaller ring over these moduli")
+			}
+			in := cc.smallVals[a.Level()]
+			before := hashPoly(hashPoly(1, in.Value[0]), in.Value[1])
+			err := ev(e).ApplyEvaluationKey(in, cc.swkUp, o)
+			if hashPoly(hashPoly(1, in.Value[0]), in.Value[1]) != before {
+				c09ArgModified = "the ciphertext of the smaller ring"
+			}
+			return err
 		}},
 		{name: "Relinearize", op1: []int{vNone}, deg: degOne, call: func(e any, a *rlwe.Ciphertext, b any, k int, o *rlwe.Ciphertext) error {
 			if a.Degree() != 2 {
